@@ -168,9 +168,17 @@ func c15Exchange(r *Run) {
 		}
 	}
 	var creds *client.AuthCredentials
+	clientCreds := creds
+	wrongCreds := false
 	if e.auth {
 		creds = &client.AuthCredentials{Username: "user1", Password: "pass1"}
+		clientCreds = creds
+		// the wrong password: the server's ERROR response to AUTH_RESPONSE has to reach the client request
+		if wrongCreds = T.Bool("wrongcreds", 0.3); wrongCreds {
+			clientCreds = &client.AuthCredentials{Username: "user1", Password: "not-the-password"}
+		}
 	}
+	r.Config["wrong_credentials"] = fmt.Sprint(wrongCreds)
 	ctx, cancel := context.WithCancel(context.Background())
 	// generate all frames up front (draw order independent of scheduling)
 	reqs := make([]*frame.Frame, nReq)
@@ -196,7 +204,7 @@ func c15Exchange(r *Run) {
 	lateLost := ""
 	r.Go("main", func() {
 		var err error
-		e.cc, err = client.VerifNewClientConnection(e.a, ctx, creds, e.comp, 64, 4, time.Hour, nil)
+		e.cc, err = client.VerifNewClientConnection(e.a, ctx, clientCreds, e.comp, 64, 4, time.Hour, nil)
 		if err != nil {
 			return
 		}
@@ -212,6 +220,18 @@ func c15Exchange(r *Run) {
 		r.Yield("hs.c")
 		<-hs
 		r.Yield("hs.joined")
+		if wrongCreds {
+			// the handshake has to fail, and on the client side it has to fail BECAUSE the server's ERROR
+			// response arrived: the response to AUTH_RESPONSE reaches the request that sent it
+			r.Probes["handshakes_with_wrong_credentials"]++
+			if err == nil {
+				r.Violate(P, "handshake", "wrong-credentials-accepted", "handshake with a wrong password succeeded on the client side (server: %v)", hsErr)
+			} else if !strings.Contains(err.Error(), "expected AUTH_CHALLENGE or AUTH_SUCCESS, got") {
+				r.Violate(P, "handshake", "auth-error-response-lost", "wrong password: the server's ERROR response to AUTH_RESPONSE did not reach the client request (version %v, compression %v): client handshake failed with %q instead of reporting the response it got", e.v, e.comp, err.Error())
+			}
+			done = true
+			return
+		}
 		if err != nil || hsErr != nil {
 			r.Violate(P, "handshake", "failed", "fault-free handshake failed (version %v, compression %v, auth %v): client=%v server=%v", e.v, e.comp, e.auth, err, hsErr)
 			return
@@ -598,12 +618,20 @@ func c15RawServer(r *Run) {
 	T := r.T
 	n := 1 + T.Draw("nreq", 8)
 	r.Config["requests"] = fmt.Sprint(n)
+	// quiet: the client has a short read timeout (5 s) and, after the exchange, nothing is sent for 30 s;
+	// a connection with no request in flight has nothing to time out: one more exchange must work
+	quiet := T.Bool("quiet", 0.25)
+	readTimeout := time.Hour
+	if quiet {
+		readTimeout = 5 * time.Second
+	}
+	r.Config["quiet_period"] = fmt.Sprint(quiet)
 	ctx, cancel := context.WithCancel(context.Background())
 	peer := NewRawPeer(r, e.b, versionByte(e.v))
 	cells := make([][]byte, n)
 	for i := range cells {
 		size := T.DrawGeo("csize", 400)
-		if T.Bool("cbig", 0.2) && e.opts.Capacity >= 4096 {
+		if T.Bool("cbig", 0.2) && e.opts.Capacity >= 4096 && !quiet {
 			size = 1000 + T.Draw("cbigsize", 400000)
 		}
 		cells[i] = c15Cell(fmt.Sprintf("rs%d", i), size, T.Bool("ccomp", 0.5), uint64(i+7))
@@ -614,7 +642,7 @@ func c15RawServer(r *Run) {
 	var reqEnvs []RFrame
 	r.Go("main", func() {
 		var err error
-		e.cc, err = client.VerifNewClientConnection(e.a, ctx, nil, e.comp, 64, 4, time.Hour, nil)
+		e.cc, err = client.VerifNewClientConnection(e.a, ctx, nil, e.comp, 64, 4, readTimeout, nil)
 		if err != nil {
 			return
 		}
@@ -709,6 +737,32 @@ func c15RawServer(r *Run) {
 		}
 		wg.Wait()
 		r.Yield("rawserver.joined")
+		if quiet && len(errs) == 0 {
+			r.Sleep(30 * time.Second)
+			r.Probes["quiet_periods_longer_than_the_read_timeout"]++
+			var wg2 sync.WaitGroup
+			wg2.Add(1)
+			r.Go("rawserver.afterquiet", func() {
+				defer wg2.Done()
+				f, err := peer.ReadFrame()
+				r.Yield("raw.recv2")
+				if err != nil {
+					errs = append(errs, fmt.Sprintf("raw server read after the quiet period: %v", err))
+					return
+				}
+				if err := peer.SendEnvelopes([][]byte{peer.Envelope(true, 0, f.H.Stream, ROpResult, RBodyResultRows(1, [][][]byte{{[]byte("after-quiet")}}, 0, false), false)}); err != nil {
+					errs = append(errs, fmt.Sprintf("raw server write after the quiet period: %v", err))
+				}
+			})
+			if req, err := e.cc.Send(queryFrame(e.v, client.ManagedStreamId, "after-quiet")); err != nil || req == nil {
+				errs = append(errs, fmt.Sprintf("client Send after a quiet period of 30 s (read timeout %v): %v", readTimeout, err))
+				_ = e.b.Close()
+			} else if f, err := e.cc.Receive(req); err != nil || f == nil || pageTag(f) != "after-quiet" {
+				errs = append(errs, fmt.Sprintf("client Receive after a quiet period of 30 s (read timeout %v): frame=%v err=%v", readTimeout, f != nil, err))
+				_ = e.b.Close()
+			}
+			wg2.Wait()
+		}
 		done = true
 	})
 	if !r.Drive() {
